@@ -34,6 +34,8 @@ def components(rng, d, kind):
         dims = [m] * d
     else:
         dims = [int(rng.integers(1, 4)) for _ in range(d)]
+        if rng.random() < 0.3:  # site-dependent LISTS on a chain of equal sites (what the nearly homogeneous / isolated-modification classes below need)
+            dims = [int(rng.integers(2, 4))] * d
     while int(np.prod(dims)) > 243:
         dims[int(np.argmax(dims))] -= 1
         homogeneous = homogeneous and len(set(dims)) == 1
@@ -103,7 +105,7 @@ def components(rng, d, kind):
         m = dims[0]
         S0 = site(m)
         L0, M0 = pair(m, m)
-        u = int(rng.integers(0, 3))
+        u = int(rng.integers(0, 5)) if d < 5 else int(rng.integers(0, 8))
         q = float(10 ** rng.uniform(-7, -5.2))
         f = 1.0 + q * rng.standard_normal(d) if u == 0 else np.ones(d)
         if u == 1:
@@ -112,6 +114,18 @@ def components(rng, d, kind):
         S = [S0 if share else S0 * f[i] for i in range(d)]
         for i in range(d - 1):
             L[i], M[i + 1] = (L0 if share else L0 * f[i]), (M0 if share else M0.copy())
+        if u >= 3:
+            # a repetitive chain (equal values on all sites) with ONE isolated modification of order one, carried by exactly one of the
+            # four component lists at one site: a single strong / weak bond (L[j] or M[j]), an impurity site (S[j])
+            j = int(rng.integers(0, d)) if rng.random() < 0.5 else d - 1 - int(rng.integers(0, min(2, d)))
+            g = float(rng.uniform(0.2, 0.6)) if rng.random() < 0.5 else float(rng.uniform(1.7, 3.0))
+            w = int(rng.integers(0, 3))
+            if w == 0:
+                S[j] = S0 * g
+            elif w == 1 and j < d - 1:
+                L[j] = L0 * g
+            elif j >= 1:
+                M[j] = M0 * g
     L[d - 1] = np.zeros((dims[-1], dims[-1], 1))
     M[0] = np.zeros((1, dims[0], dims[0]))
     I = [np.eye(m) for m in dims]
@@ -136,7 +150,7 @@ def state(rng, dims, cplx):
 
 
 def w_step(ctx, rng, idx):
-    d = int(rng.integers(2, 6))
+    d = int(rng.integers(2, 7))
     kind = ['general', 'skew_real', 'skew_complex', 'markov'][int(rng.integers(0, 4))]
     S, L, I, M, dims, hom, cplx = components(rng, d, kind)
     with probe.oracle():
